@@ -117,10 +117,10 @@ def run_history_impl(hist, arch):
                 except BaseException:  # noqa: BLE001  (outcome of the intermediate evaluation is irrelevant here)
                     pass
                 continue
-            if arg is None:
-                getattr(r, meth)()
-            else:
-                getattr(r, meth)(arg)
+            nxt = getattr(r, meth)() if arg is None else getattr(r, meth)(arg)
+            if nxt is None:
+                raise rules.FluentChainBroken(f"{meth}() returned None: the call chain cannot be continued")
+            r = nxt
     except AssertionError as e:
         return ("FAIL", "builder raised AssertionError: " + str(e))
     except Exception as e:  # noqa: BLE001
